@@ -1092,7 +1092,15 @@ func NewFloatPercentileReduceSliceFunc(percentile float64) FloatReduceSliceFunc 
 			return nil
 		}
 
-		sort.Sort(floatPointsByValue(a))
+		// Order the points by value and, within a value, by time, so that the point
+		// selected among equal values (and the time reported for it) does not depend
+		// on the order in which the points arrive or on an unstable sort.
+		sort.Slice(a, func(i, j int) bool {
+			if a[i].Value != a[j].Value {
+				return a[i].Value < a[j].Value
+			}
+			return a[i].Time < a[j].Time
+		})
 		return []FloatPoint{{Time: a[i].Time, Value: a[i].Value, Aux: cloneAux(a[i].Aux)}}
 	}
 }
@@ -1107,7 +1115,15 @@ func NewIntegerPercentileReduceSliceFunc(percentile float64) IntegerReduceSliceF
 			return nil
 		}
 
-		sort.Sort(integerPointsByValue(a))
+		// Order the points by value and, within a value, by time, so that the point
+		// selected among equal values (and the time reported for it) does not depend
+		// on the order in which the points arrive or on an unstable sort.
+		sort.Slice(a, func(i, j int) bool {
+			if a[i].Value != a[j].Value {
+				return a[i].Value < a[j].Value
+			}
+			return a[i].Time < a[j].Time
+		})
 		return []IntegerPoint{{Time: a[i].Time, Value: a[i].Value, Aux: cloneAux(a[i].Aux)}}
 	}
 }
@@ -1122,7 +1138,15 @@ func NewUnsignedPercentileReduceSliceFunc(percentile float64) UnsignedReduceSlic
 			return nil
 		}
 
-		sort.Sort(unsignedPointsByValue(a))
+		// Order the points by value and, within a value, by time, so that the point
+		// selected among equal values (and the time reported for it) does not depend
+		// on the order in which the points arrive or on an unstable sort.
+		sort.Slice(a, func(i, j int) bool {
+			if a[i].Value != a[j].Value {
+				return a[i].Value < a[j].Value
+			}
+			return a[i].Time < a[j].Time
+		})
 		return []UnsignedPoint{{Time: a[i].Time, Value: a[i].Value, Aux: cloneAux(a[i].Aux)}}
 	}
 }
